@@ -4,6 +4,7 @@ From Coq Require Import List Arith Bool.
 From AV Require Import Base.Util Spec.Lang Spec.FA Spec.Regex Model.Decide
                        Model.RegexLex Model.RegexParse Model.RegexBuild
                        Proofs.RegexFrag Proofs.RegexProd Proofs.RegexBuild Proofs.RegexParse
+                       Proofs.RegexGrammar Proofs.RegexShow
                        Proofs.RegexCompile Proofs.RegexTotal.
 Import ListNotations.
 
@@ -58,11 +59,59 @@ Theorem C10_parse_print : forall r,
 Proof. intro r. split; [exact (print_validates r)|exact (parse_print r)]. Qed.
 Print Assumptions C10_parse_print.
 
-(* a redundant pair of parentheses around the expression changes nothing *)
-Theorem C10_redundant_parens : forall r,
+(* redundant parentheses around ANY sub-expression occurrences change nothing.  [pre] is the
+   AST with an extra constructor PParen, [erase] forgets it, [ptoks p 1] prints the necessary
+   parentheses of [toks] plus one pair per PParen node (ptoks (embed r) = toks r): the printing
+   validates and parses to the undecorated AST - hence to the same denotation. *)
+Theorem C10_redundant_parens : forall p,
+  validate_tokens (ptoks p 1) = Ok tt /\ parse_tokens (ptoks p 1) = Ok (erase p).
+Proof. exact redundant_parens_any. Qed.
+Print Assumptions C10_redundant_parens.
+
+Theorem C10_redundant_parens_den : forall p sigma, exists r,
+  parse_tokens (ptoks p 1) = Ok r /\ den sigma r =L den sigma (erase p).
+Proof.
+  intros p sigma. exists (erase p). split; [exact (proj2 (redundant_parens_any p))|].
+  intro w. split; intro H; exact H.
+Qed.
+Print Assumptions C10_redundant_parens_den.
+
+Theorem C10_decoration_conservative : forall r l, ptoks (embed r) l = toks r l /\ erase (embed r) = r.
+Proof. intros r l. split; [exact (ptoks_embed r l)|exact (erase_embed r)]. Qed.
+Print Assumptions C10_decoration_conservative.
+
+(* the outer pair around the minimal printing (the former statement) *)
+Theorem C10_redundant_outer_parens : forall r,
   parse_tokens ([TLParen] ++ toks r 1 ++ [TRParen]) = Ok r.
 Proof. exact redundant_parens. Qed.
-Print Assumptions C10_redundant_parens.
+Print Assumptions C10_redundant_outer_parens.
+
+(* character level.  [show_nat] is the decimal printer (most significant digit first), the
+   text of a quantifier is "{" lo "," hi "}" ("{" lo ",}" without upper bound): int() reads the
+   bound back and the lexer produces the one quantifier token (lo <= hi is the lexer's own
+   requirement, InvalidRegexError otherwise) *)
+Theorem C10_show_quant : forall lo hi, le_opt lo hi ->
+  parse_int (show_nat lo) = Ok lo /\ lex (show_quant lo hi) = Ok [TQuant lo hi] /\
+  clean (show_quant lo hi) [TQuant lo hi].
+Proof.
+  intros lo hi H. split; [exact (parse_int_show lo)|].
+  split; [exact (lex_show_quant lo hi H)|exact (clean_show_quant lo hi H)].
+Qed.
+Print Assumptions C10_show_quant.
+
+(* the round trip on CHARACTER strings: for every AST whose symbols are non-reserved,
+   non-whitespace characters and whose bounds satisfy lo <= hi, with redundant parentheses
+   around any sub-expressions (p) and any blanks / tabs at any token boundaries (bl i in front
+   of token i), parse_regex returns the AST *)
+Theorem C10_parse_show : forall p bl,
+  re_printable (erase p) -> (forall i, forallb is_blank (bl i) = true) ->
+  parse (show_sp bl 0 (ptoks p 1)) = Ok (erase p).
+Proof. exact parse_show_general. Qed.
+Print Assumptions C10_parse_show.
+
+Theorem C10_parse_show_minimal : forall r, re_printable r -> parse (show r) = Ok r.
+Proof. exact parse_show. Qed.
+Print Assumptions C10_parse_show_minimal.
 
 (* blanks at any token boundary are ignored by the lexer *)
 Theorem C10_blanks_ignored : forall u ts bl v, clean u ts -> forallb is_blank bl = true ->
@@ -96,3 +145,11 @@ Example C10_example_products :
   exists m, compile [2; 26; 4; 27; 3; 7; 5; 10; 10; 6; 26] None = Ok m /\
             nfa_acc m [26; 27; 26] = true /\ nfa_acc m [27; 27] = false /\ nfa_acc m [26; 26; 27] = true.
 Proof. eexists. split; [vm_compute; reflexivity|]. vm_compute. repeat split. Qed.
+
+(* "((a))|(b{2,13})" with blanks: the printed characters, and the round trip *)
+Example C10_example_show :
+  pshow (PUnion (PParen (PParen (PSym 26))) (PParen (PRep (PSym 27) 2 (Some 13))))
+  = [2; 2; 26; 3; 3; 4; 2; 27; 11; 18; 13; 17; 19; 12; 3] /\
+  parse [2; 2; 26; 3; 3; 0; 4; 1; 2; 27; 11; 18; 13; 17; 19; 12; 3]
+  = Ok (RUnion (RSym 26) (RRep (RSym 27) 2 (Some 13))).
+Proof. vm_compute. split; reflexivity. Qed.
